@@ -47,13 +47,37 @@ fn esc(b: &[u8]) -> String {
     s
 }
 
+/// make a text safe inside a JSON string: quotes become ', and a backslash stays only where it starts one of the
+/// escapes `esc` produces (\r \n \\ \uXXXX); any other backslash (e.g. from a nested {:?}) is doubled
+fn json_safe(t: &str) -> String {
+    let t = t.replace("\\\"", "'").replace('"', "'");
+    let b: Vec<char> = t.chars().collect();
+    let mut o = String::new();
+    let mut i = 0;
+    while i < b.len() {
+        let c = b[i];
+        if c == '\\' {
+            let n = b.get(i + 1).copied();
+            match n {
+                Some('r') | Some('n') | Some('t') => { o.push('\\'); o.push(n.unwrap()); i += 2; continue; }
+                Some('\\') => { o.push_str("\\\\"); i += 2; continue; }
+                Some('u') if i + 5 < b.len() && b[i + 2..i + 6].iter().all(|h| h.is_ascii_hexdigit()) => { o.push_str("\\u"); i += 2; continue; }
+                _ => { o.push_str("\\\\"); i += 1; continue; }
+            }
+        }
+        if (c as u32) < 0x20 { o.push_str(&format!("\\u{:04x}", c as u32)); } else { o.push(c); }
+        i += 1;
+    }
+    o
+}
+
 fn found(prop: &str, input: String, observed: String, expected: String) -> ! {
     println!(
         "{{\"status\":\"found\",\"property\":\"{}\",\"input\":\"{}\",\"observed\":\"{}\",\"expected\":\"{}\"}}",
         prop,
-        input.replace('"', "'"),
-        observed.replace('"', "'"),
-        expected.replace('"', "'")
+        json_safe(&input),
+        json_safe(&observed),
+        json_safe(&expected)
     );
     std::process::exit(0)
 }
@@ -239,7 +263,9 @@ fn reference(stream: &[u8], limit: usize) -> Outcome {
         };
         let (m, u, v) = match ref_request_line(&s[..i]) { Ok(x) => x, Err(e) => { o.error = Some(e); return o; } };
         s = &s[i + 2..];
-        let mut h = micro_http::Headers::default();
+        // header lines are interpreted by the reference of the header rules (ref_line, written from C15's statement),
+        // not by the crate's own header parser
+        let mut h = RefHeaders { content_length: 0, expect: false, chunked: false, accept_json: false, custom: Default::default() };
         loop {
             let w = &s[..s.len().min(1024)];
             let i = match find_crlf(w) {
@@ -247,20 +273,17 @@ fn reference(stream: &[u8], limit: usize) -> Outcome {
                 None => { if s.len() >= 1024 { o.error = Some("HeaderError::SizeLimitExceeded".into()); } return o; }
             };
             if i == 0 { s = &s[2..]; break; }
-            match h.parse_header_line(&s[..i]) {
-                Ok(()) => {}
-                Err(e) => {
-                    let k = err_kind(&micro_http::ConnectionError::ParseError(e));
-                    if k != "HeaderError::UnsupportedValue" { o.error = Some(k); return o; }
-                }
+            match ref_line(&mut h, &s[..i]) {
+                Ok(()) | Err(RefFault::Ignored) => {}
+                Err(RefFault::Fatal(k)) => { o.error = Some(if k == "InvalidRequest" { k.to_string() } else { format!("HeaderError::{}", k) }); return o; }
             }
             s = &s[i + 2..];
         }
-        let n = h.content_length() as usize;
+        let n = h.content_length as usize;
         let mut body = None;
         if n != 0 {
             if n > limit { o.error = Some(format!("SizeLimitExceeded({}, {})", limit, n)); return o; }
-            if h.expect() { o.continues.push(if v == "Http10" { "1.0".into() } else { "1.1".into() }); }
+            if h.expect { o.continues.push(if v == "Http10" { "1.0".into() } else { "1.1".into() }); }
             if s.len() < n { return o; }
             body = Some(s[..n].to_vec());
             s = &s[n..];
@@ -286,7 +309,12 @@ fn gen_request(rng: &mut Rng, limit: usize) -> Vec<u8> {
     if body_len > 0 || rng.chance(10) {
         r.extend_from_slice(format!("Content-Length: {}\r\n", body_len).as_bytes());
     }
-    if rng.chance(30) { r.extend_from_slice(b"Expect: 100-continue\r\n"); }
+    if rng.chance(30) {
+        // any header-name case, surrounding whitespace, unsupported expectation values (C13's quantifier)
+        let name: &[u8] = [&b"Expect"[..], b"expect", b"EXPECT", b"eXpEcT", b" Expect ", b"Expect\t"][if rng.chance(60) { 0 } else { rng.below(6) }];
+        let val: &[u8] = [&b"100-continue"[..], b"100-continue ", b"\t100-continue\t", b"  100-continue", b"100-Continue", b"103-checkpoint", b"100-continue, x"][if rng.chance(60) { 0 } else { rng.below(7) }];
+        r.extend_from_slice(name); r.extend_from_slice(b":"); if rng.chance(80) { r.push(b' '); } r.extend_from_slice(val); r.extend_from_slice(b"\r\n");
+    }
     if rng.chance(20) { r.extend_from_slice(b"X-Custom: v\r\n"); }
     if rng.chance(5) {
         r.extend_from_slice(b"X-Long: ");
@@ -294,6 +322,7 @@ fn gen_request(rng: &mut Rng, limit: usize) -> Vec<u8> {
         r.extend_from_slice(b"\r\n");
     }
     if rng.chance(4) { r.extend_from_slice(b"Content-Length: abc\r\n"); }
+    if rng.chance(3) { r.extend_from_slice([&b"Content-Length: 4294967296\r\n"[..], b"Content-Length: 18446744073709551616\r\n", b"Content-Length: -1\r\n", b"Content-Length: +0\r\n"][rng.below(4)]); }
     r.extend_from_slice(b"\r\n");
     for k in 0..body_len { r.push(if rng.chance(5) { b'\r' } else if rng.chance(5) { b'\n' } else { b'0' + (k % 10) as u8 }); }
     r
@@ -700,6 +729,22 @@ fn search_c16(_budget: usize) {
         for &a in alphabet { cur.push(a); rec(cur, alphabet, depth - 1, tried); cur.pop(); }
     }
     rec(&mut cur, &alphabet, 4, &mut tried);
+    // media types: exactly the two canonical spellings, modulo surrounding whitespace; every one-byte edit and case flip rejected
+    for tok in [&b"text/plain"[..], b"application/json"] {
+        let want_v = if tok == b"text/plain" { MediaType::PlainText } else { MediaType::ApplicationJson };
+        for (l, r) in [("", ""), (" ", ""), ("", " "), ("\t ", " \t"), ("\u{a0}", "\u{2003}")] {
+            let mut t = l.as_bytes().to_vec(); t.extend_from_slice(tok); t.extend_from_slice(r.as_bytes());
+            tried += 1;
+            if MediaType::try_from(&t).ok() != Some(want_v) { found("C16", format!("MediaType::try_from({})", esc(&t)), format!("{:?}", MediaType::try_from(&t).ok()), format!("{:?}", want_v)); }
+        }
+        for i in 0..tok.len() { for b in 0..=255u8 {
+            let mut t = tok.to_vec(); if t[i] == b { continue; } t[i] = b;
+            tried += 1;
+            if MediaType::try_from(&t).is_ok() { found("C16", format!("MediaType::try_from({})", esc(&t)), "Ok".into(), "Err: not a canonical spelling".into()); }
+        } }
+        for extra in [&b"x"[..], b";", b"/", b"2"] { let mut t = tok.to_vec(); t.extend_from_slice(extra); tried += 1; if MediaType::try_from(&t).is_ok() { found("C16", format!("MediaType::try_from({})", esc(&t)), "Ok".into(), "Err".into()); } }
+    }
+    if MediaType::try_from(b"").is_ok() || MediaType::try_from(b" ").is_ok() { found("C16", "MediaType::try_from of an empty / blank value".into(), "Ok".into(), "Err".into()); }
     for tok in [&b"GET"[..], b"PUT", b"PATCH", b"HTTP/1.0", b"HTTP/1.1"] {
         for i in 0..tok.len() { for b in 0..=255u8 {
             let mut t = tok.to_vec(); if t[i] == b { continue; } t[i] = b;
